@@ -5,8 +5,8 @@ leading dim "*") x batch size b in {1, 2, 4} (nworld = 4, so b = 2 exercises the
 pipeline variants of one kitchen-sink scene (mc/refs/sink.py) in which the field has an effect.
 World w of the batched Model holds value v[w % b] (v[k] = deterministic perturbation #k of the compiled value).
 
-Oracle (`exact`): the same ops (2 x step, forward) on an unbatched Model holding v[w % b] and a 1-world Data
-give bit-identical Data for world w (state, kinematics, dynamics, sensors, contacts, constraint rows).
+Oracle (`exact`): the same ops (2 x step, forward) on an unbatched Model holding v[w % b] and a Data of the same nworld
+(all worlds identical) give bit-identical Data for world w (state, kinematics, dynamics, sensors, contacts, constraint rows).
 A field whose perturbation changes nothing (solo runs for v[0] and v[1] bit-identical) is `unexercised`.
 """
 
@@ -31,7 +31,7 @@ BOUNDS = {
 ASSUMPTIONS = [
   "fields are perturbed independently of fields MuJoCo would derive from them (the oracle is MJWarp itself with an unbatched Model)",
   "render-only fields (rgba, materials, light colours, fovy/intrinsic, ...) have no effect on the simulated Data and are reported unexercised here (rendering: C35)",
-  "batch-vs-solo bit identity is achievable on the CPU backend (verified for the unperturbed scene by the b=1 scenarios)",
+  "the reference run uses the same nworld with an unbatched Model (the dependence of sparse Newton results on the batch size itself is a C09/C25 finding, not part of this property)",
   "batch sizes are divisors of nworld as in the property text",
 ]
 BUDGET = {"quick": 400, "thorough": 3000}
@@ -265,17 +265,20 @@ def execute(scn):
     # batch holds perturbation #1 alone; effect is measured against #2
     pass
   c = util.Cmp()
-  solos = [run(mjm, field, [v], 1, nstep, alt)[0] for v in vals]
+  # reference: an UNBATCHED Model holding value k, simulated with the same number of worlds (all identical); world w is compared with
+  # world w of that run, so neither the batch size nor the position in the batch (separate property C09) enters the comparison
+  solos_all = [run(mjm, field, [v], NWORLD, nstep, alt) for v in vals]
+  solos = [x[0] for x in solos_all]
   effect = same(solos[0], solos[1])
   batch = run(mjm, field, vals[:b], NWORLD, nstep, alt)
   for w in range(NWORLD):
-    diff = same(solos[w % b], batch[w])
+    diff = same(solos_all[w % b][w], batch[w])
     c.nchecked += 1
     if diff is not None:
-      x, y = np.asarray(batch[w][diff], dtype=np.float64), np.asarray(solos[w % b][diff], dtype=np.float64)
+      x, y = np.asarray(batch[w][diff], dtype=np.float64), np.asarray(solos_all[w % b][w][diff], dtype=np.float64)
       detail = f"max|diff|={np.abs(x - y).max():.3g}" if x.shape == y.shape and x.size else f"shape {x.shape} vs {y.shape}"
       # which solo does it look like instead?
-      alias = [k for k in range(len(solos)) if same(solos[k], batch[w]) is None]
+      alias = [k for k in range(len(solos)) if same(solos_all[k][w], batch[w]) is None]
       c.fail(
         f"batched:{field}",
         f"field {field} batch size {b} scene {scn['scene']}: world {w} (value #{w % b}) differs from the unbatched run in '{diff}' ({detail})"
